@@ -93,6 +93,9 @@ def check(ctx):
     near_predefined(ctx)
     ppx.known_finding_replay(ctx, "C04", "D4-elsif-predefined", ppx.PC({"top.sv": D4_WITNESS}),
                              lambda rr: rr.ok and b"B" in (rr.text or b""))
+    ppx.known_finding_replay(ctx, "C04", "objectlike-usage-paren",
+                             ppx.PC({"top.sv": open(os.path.join(VERIF, "corpus", "C04-objectlike-paren.sv")).read()}),
+                             lambda rr: not rr.ok and "Preprocess" in (rr.err or ""))
 
 
 def empty_groups(ctx):
